@@ -82,6 +82,7 @@ def run(c, chk, alloc_failure=False):
     include_rule(c, chk, ex)
     realloc_to_nothing(c, chk, ex)
     lent_strings(c, chk, ex)
+    table_pointers_not_kept(c, chk)
     if not isinstance(chk, report.SubCheck) and not alloc_failure:
         from . import c09 as _c09, c08 as _c08, c16 as _c16
         # R7.8: "never uses it after release": a setter that may be handed the option's own current string copies it first
@@ -318,6 +319,80 @@ def parser_ownership(c, chk):
 def is_section_value(v):
     """v is loaded from the 'section' member of a value slot"""
     return v[0] == 'ld' and v[1][0] == 'fld' and v[1][3] == 'section'
+
+
+def table_pointers_not_kept(c, chk, rid='R7.11'):
+    """R7.11: the option table of a context (cfg->opts) is an array the library reallocates (a free-form section grows it with every
+    new key) and frees with the context.  A pointer into it - &cfg->opts[i], or what a lookup returned - is good until the next
+    such step only: it may live in locals and be handed to callers, but the library itself keeps none in a global or in a member of a
+    longer-lived object (a "last lookup" cache would be read after the table it points into is gone).  IR def-use rule over
+    every function of confuse.c: a value derived from a load of `opts` of a context (through getelementptr/casts/phi/select, or
+    returned by a function whose return value is so derived) is never the value operand of a store into a global or a structure member"""
+    chk.rule(rid, 'no pointer into a context\'s option table is kept in a global or in a structure member (a cached option outlives the table when it is reallocated or freed)')
+    mod = c.confuse
+    returns_tab = set()
+
+    def tainted_regs(f):
+        t = set()
+        changed = True
+        while changed:
+            changed = False
+            for ins in f.instrs():
+                if ins.res is None or ins.res in t:
+                    continue
+                hit = False
+                if ins.op == 'load':
+                    a = ins.ops[0]
+                    d = f.defs.get(a.name) if a.kind == 'reg' else None
+                    if d is not None and d.op == 'getelementptr' and (d.srcty or '').strip() == '%struct.cfg_t' and len(d.ops) >= 3 and d.ops[2].kind == 'int' \
+                            and mod.field_name('%struct.cfg_t', d.ops[2].ival) == 'opts':
+                        hit = True
+                elif ins.op == 'getelementptr' or ins.op in ('bitcast',):
+                    hit = ins.ops[0].kind == 'reg' and ins.ops[0].name in t
+                elif ins.op == 'phi':
+                    hit = any(v.kind == 'reg' and v.name in t for v, _ in ins.incoming)
+                elif ins.op == 'select':
+                    hit = any(v.kind == 'reg' and v.name in t for v in ins.ops[1:3])
+                elif ins.op == 'call' and ins.callee_name() in returns_tab:
+                    hit = True
+                if hit:
+                    t.add(ins.res)
+                    changed = True
+        return t
+    # which functions return a pointer into a table (fixpoint)
+    grew = True
+    while grew:
+        grew = False
+        for f in mod.funcs.values():
+            if f.name in returns_tab:
+                continue
+            t = tainted_regs(f)
+            if any(ins.op == 'ret' and ins.ops and ins.ops[0].kind == 'reg' and ins.ops[0].name in t for ins in f.instrs()):
+                returns_tab.add(f.name)
+                grew = True
+    n = 0
+    for f in mod.funcs.values():
+        t = tainted_regs(f)
+        if not t:
+            continue
+        for ins in f.instrs():
+            if ins.op != 'store' or not (ins.ops[0].kind == 'reg' and ins.ops[0].name in t):
+                continue
+            n += 1
+            a = ins.ops[1]
+            where = None
+            if a.kind == 'global':
+                where = 'the global %s' % a.name.lstrip('@')
+            elif a.kind == 'reg':
+                d = f.defs.get(a.name)
+                if d is not None and d.op == 'getelementptr' and (d.srcty or '').strip().startswith('%struct.') and len(d.ops) >= 3 and d.ops[2].kind == 'int':
+                    where = 'the member %s of a %s' % (mod.field_name(d.srcty.strip(), d.ops[2].ival), d.srcty.strip()[8:])
+            if where:
+                chk.fail(rid, 'table-pointer-kept:%s' % f.name, c.where(ins), '%s() stores a pointer into a context\'s option table in %s: the table is reallocated when a free-form '
+                         'section gains a key and freed with its context, the stored pointer is not - the next use reads freed memory' % (f.name, where))
+    chk.ok(rid, 'confuse.c: %d functions returning a pointer into an option table, %d stores of such pointers' % (len(returns_tab), n),
+           'none into a global or a structure member (out-parameters and locals only)')
+    chk.floor('%s functions that return a pointer into an option table' % rid, len(returns_tab), 3)
 
 
 def lent_strings(c, chk, ex):
